@@ -6,16 +6,14 @@ import F1Verif.Generated.Facts
 import F1Verif.Expected
 namespace F1.Props.FactsC02
 
+-- (jobCounter_set, jobCounter_none, jobCounter_take, pool_running: re-proved semantically on the regenerated MiniGo programs, see Props/Refine*.lean)
+
 theorem fact_pool_Trigger : F1.Generated.skel_pool_Trigger = F1.Expected.skel_pool_Trigger := by rfl
 theorem fact_pool_sendJobs : F1.Generated.skel_pool_sendJobs = F1.Expected.skel_pool_sendJobs := by rfl
 theorem fact_pool_stop : F1.Generated.skel_pool_stop = F1.Expected.skel_pool_stop := by rfl
 theorem fact_pool_maxIterationsReached : F1.Generated.skel_pool_maxIterationsReached = F1.Expected.skel_pool_maxIterationsReached := by rfl
 theorem fact_pool_run : F1.Generated.skel_pool_run = F1.Expected.skel_pool_run := by rfl
 theorem fact_pool_waitForNewJobs : F1.Generated.skel_pool_waitForNewJobs = F1.Expected.skel_pool_waitForNewJobs := by rfl
-theorem fact_pool_running : F1.Generated.skel_pool_running = F1.Expected.skel_pool_running := by rfl
-theorem fact_jobCounter_set : F1.Generated.skel_jobCounter_set = F1.Expected.skel_jobCounter_set := by rfl
-theorem fact_jobCounter_none : F1.Generated.skel_jobCounter_none = F1.Expected.skel_jobCounter_none := by rfl
-theorem fact_jobCounter_take : F1.Generated.skel_jobCounter_take = F1.Expected.skel_jobCounter_take := by rfl
 theorem fact_pool_Start : F1.Generated.skel_pool_Start = F1.Expected.skel_pool_Start := by rfl
 theorem fact_pool_new : F1.Generated.skel_pool_new = F1.Expected.skel_pool_new := by rfl
 theorem fact_api_NewIterationWorker : F1.Generated.skel_api_NewIterationWorker = F1.Expected.skel_api_NewIterationWorker := by rfl
